@@ -40,3 +40,25 @@ def _path_elements(box):
 
 daglish.register_node_traverser(TempBox, flatten_fn=_flatten, unflatten_fn=_unflatten,
                                 path_elements_fn=_path_elements)
+
+
+class CustomBox:
+  """A node type known ONLY to the custom registry below (not to the default one)."""
+
+  def __init__(self, items):
+    self.items = list(items)
+
+  @property
+  def vt_bound(self):
+    return {'items': self.items}
+
+  def __repr__(self):
+    return f'CustomBox(<{len(self.items)} items>)'
+
+
+CUSTOM_REGISTRY = daglish.NodeTraverserRegistry(use_fallback=True)
+CUSTOM_REGISTRY.register_node_traverser(
+    CustomBox,
+    flatten_fn=lambda b: (tuple(b.items), None),
+    unflatten_fn=lambda values, _: CustomBox(values),
+    path_elements_fn=lambda b: tuple(daglish.Index(i) for i in range(len(b.items))))
